@@ -74,6 +74,9 @@ class Convert(Sub):
     shards = {"quick": 3, "thorough": 8}
     rule = "non-trivial: instant within +-gap of a transition of a zone involved, or zones differ in offset at the instant"
 
+    def describe(self, case):
+        return {"value": T.render(case["u"], case["a"]).isoformat()}
+
     def strategy(self, ctx):
         return conv_case()
 
@@ -107,6 +110,16 @@ class Convert(Sub):
         P = pendulum.datetime(1970, 1, 1, tz="UTC").add(microseconds=u % US).add(seconds=u // US)
         if T.us(P) == u:
             expect("constructed UTC -> zone", P.in_timezone(b), u, b)
+        # alias values: every other instant that shares A's wall-clock fields in zone a (the other pass of a repeated hour) is converted
+        # to the same targets right afterwards - equal-looking values must not be confused (native == / hash ignore fold within one tzinfo)
+        for u2 in T.preimages(T.naive_us(T.render(u, a)), a):
+            if u2 != u:
+                A2 = pendulum.instance(T.render(u2, a))
+                expect("other pass: instance", A2, u2, a)
+                expect("other pass: in_timezone(name)", A2.in_timezone(b), u2, b)
+                expect("other pass: astimezone", A2.astimezone(pendulum.timezone(c)), u2, c)
+                expect("other pass: in_timezone(fixed)", A2.in_timezone(pendulum.timezone(off)), u2, off)
+                expect("first value again", A.in_timezone(b), u, b)
         return is_nt(u, a, b, c), ("near-transition" if any(T.near_transition(u, z) for z in (a, b, c)) else "plain")
 
 
@@ -126,6 +139,9 @@ class Sources(Sub):
     n = {"quick": 12000, "thorough": 300000}
     shards = {"quick": 3, "thorough": 8}
     rule = "non-trivial: instant within +-gap of a transition of the source zone (fold/offset selection matters)"
+
+    def describe(self, case):
+        return {"value": T.render(case["u"], case["a"]).isoformat()}
 
     def strategy(self, ctx):
         return source_case()
